@@ -12,6 +12,12 @@ Model of `enspara/geometry/rotamer.py` (`get_gates`, `is_buffered_transition`, `
 * `np.digitize(x, bins)` for non-decreasing `bins` is the number of entries `≤ x`
   (`searchsorted(..., side='right')`); bins that are not monotone raise `ValueError`
   (decreasing bins cannot pass the `[0] == 0`, `[-1] == 360` validation);
+* at an angle EXACTLY equal to a gate value the two branches of the exit test disagree: the wrap-around
+  branch uses closed comparisons for "has left" (`upper ≤ a ≤ lower` → leaves), the other branch closed
+  comparisons for "is still inside" (`lower ≤ a ≤ upper` → stays; e.g. with a zero buffer the angle 240 keeps
+  state 1 of `[0,120,240,360]` although plain binning says 2).  The model follows the code there; the
+  property excludes these finitely many values (`AvoidsGates`), and the correspondence checks them for
+  model = code only;
 * the ragged array built by `transitions` is a list of rows; the constructor's behaviour for empty
   data (`_data` never assigned) is mirrored as `attributeError` / `indexError`.
 -/
@@ -94,6 +100,12 @@ def rotamers (angles : List Rat) (hb : List Rat) (b : Rat) : Except Err (List In
     let s0 := firstFrame a0 hb
     let tl ← loop hb b s0 rest
     pure (s0 :: tl)
+
+/-- `dihedral_angles` after `rad2deg` (rotamer.py L16-17): negative angles get +360, anything above
+359.5 is clamped to 359.5 -/
+def normalizeAngle (a : Rat) : Rat :=
+  let x := if a < 0 then a + 360 else a
+  if x > 359.5 then 359.5 else x
 
 /-- `psi_rotamers` shifts the angles before binning (rotamer.py L240-241) -/
 def shiftAngle (shift a : Rat) : Rat :=
